@@ -87,7 +87,9 @@ class TrioEvent(_EventModel):
 # ------------------------------------------------------------------------------------ locks
 class _LockModel:
     def new(self, interp, cls, args, kwargs, fr):
-        return SObj(cls, {}, tag="lock")
+        o = SObj(cls, {}, tag="lock")
+        interp.traces.setdefault("created", []).append(o)  # a lock made by this call (nobody else holds it)
+        return o
 
     def symbolic(self, interp, name):
         return SObj(self.real_class, {}, tag=name)
@@ -259,7 +261,9 @@ class AsyncioTaskGroup:
     real_class = _ATG
 
     def new(self, interp, cls, args, kwargs, fr):
-        return SObj(cls, {}, tag="taskgroup")
+        o = SObj(cls, {}, tag="taskgroup")
+        interp.traces.setdefault("created", []).append(o)
+        return o
 
     def symbolic(self, interp, name):
         return SObj(_ATG, {}, tag=name)
